@@ -45,7 +45,7 @@ type finding struct{ sig, what string }
 func gen(c *rig.Check, idx int) sched {
 	r := c.Rand(idx)
 	var s sched
-	s.Cap = capSpec{Kind: []string{"st", "st", "stin", "scope", "scope"}[r.IntN(5)], Max: int32(1 + r.IntN(6))}
+	s.Cap = capSpec{Kind: []string{"st", "st", "stin", "scope", "scope", "relempty"}[r.IntN(6)], Max: int32(1 + r.IntN(6))}
 	m := r.IntN(int(s.Cap.Max) + 1)
 	if r.IntN(3) == 0 {
 		m = int(s.Cap.Max) - r.IntN(2) // at or just below the cap
@@ -67,6 +67,9 @@ func gen(c *rig.Check, idx int) sched {
 			st = "run"
 		}
 		matching = append(matching, add("m", st, "a", false))
+		if s.Cap.Kind == "relempty" {
+			s.Recs[len(s.Recs)-1].St, s.Recs[len(s.Recs)-1].NoRel = "pending", true
+		}
 	}
 	g := func() string { return []string{"a", "a", "b"}[r.IntN(3)] }
 	for i, n := 0, 5+r.IntN(8); i < n; i++ {
@@ -107,16 +110,19 @@ func gen(c *rig.Check, idx int) sched {
 				if !s.Exact && r.IntN(4) == 0 {
 					pool = expired
 				}
-				kp = keyPatch{Key: pick(pool), St: "claimed"}
+				kp = keyPatch{Key: pick(pool), St: s.Cap.enter()}
 				if s.Cap.Kind == "stin" && r.IntN(3) == 0 {
 					kp.St = "run"
 				}
 			case x < 76: // leave
-				kp = keyPatch{Key: pick(matching), St: "done"}
+				kp = keyPatch{Key: pick(matching), St: s.Cap.leave()}
 			case x < 88: // stay in
-				kp = keyPatch{Key: pick(matching), St: "claimed"}
+				kp = keyPatch{Key: pick(matching), St: s.Cap.enter()}
 			default: // stay out
 				kp = keyPatch{Key: pick(pending), St: []string{"pending", "done", "held"}[r.IntN(3)]}
+				if s.Cap.Kind == "relempty" {
+					kp.St = []string{"x", "y"}[r.IntN(2)]
+				}
 			}
 			if kp.Key == "" || in[kp.Key] {
 				if len(o.Patches) > 0 || n > 12 {
@@ -130,16 +136,56 @@ func gen(c *rig.Check, idx int) sched {
 		}
 		return o
 	}
+	// createBatch: PatchTreasures + Cap + CreateIfNotExist on keys that do not exist yet (and now and
+	// then one that does), from a seed that already matches Cap.Filter, does not match it, or from
+	// the default empty map; the ops keep / move the new record in or out of the filter.
+	newKeys := 0
+	createBatch := func(n int) op {
+		o := op{Kind: "patch", Create: true}
+		switch x := r.IntN(10); {
+		case x < 4:
+			o.Seed = &seedSpec{St: "claimed", G: "a", Rel: ""} // matches every cap shape
+		case x < 7:
+			o.Seed = &seedSpec{St: "pending", G: []string{"a", "b"}[r.IntN(2)], Rel: "x"}
+		case x < 8:
+			o.Seed = &seedSpec{St: "claimed", G: "b", Rel: "x"} // matches st / stin only
+		}
+		for len(o.Patches) < n {
+			v := s.Cap.enter()
+			if r.IntN(4) == 0 {
+				v = s.Cap.leave()
+			}
+			if s.Cap.Kind != "relempty" && r.IntN(5) == 0 {
+				v = "pending"
+			}
+			if r.IntN(8) == 0 {
+				if k := pick(pending); k != "" {
+					o.Patches = append(o.Patches, keyPatch{Key: k, St: v})
+					continue
+				}
+			}
+			newKeys++
+			o.Patches = append(o.Patches, keyPatch{Key: fmt.Sprintf("n%02d", newKeys), St: v})
+		}
+		return o
+	}
 	s.Tag = "stress"
 	if r.IntN(10) == 0 {
 		// one batch alone: the four-cell rule and the budget arithmetic in their sequential form
 		s.Tag = "single-batch"
-		s.Ops = append(s.Ops, patchBatch(3+r.IntN(5)))
+		if r.IntN(2) == 0 {
+			s.Ops = append(s.Ops, createBatch(2+r.IntN(5)))
+		} else {
+			s.Ops = append(s.Ops, patchBatch(3+r.IntN(5)))
+		}
 		return s
 	}
 	nb := 2 + r.IntN(5)
+	creates := r.IntN(100) < 45
 	for i := 0; i < nb; i++ {
 		switch x := r.IntN(100); {
+		case creates && x < 30:
+			s.Ops = append(s.Ops, createBatch(1+r.IntN(4)))
 		case x < 60 || i < 2:
 			s.Ops = append(s.Ops, patchBatch(1+r.IntN(4)))
 		case x < 85:
@@ -152,7 +198,7 @@ func gen(c *rig.Check, idx int) sched {
 		o := op{Kind: "release"}
 		for n := 1 + r.IntN(2); n > 0; n-- {
 			if k := pick(matching); k != "" && (len(o.Patches) == 0 || o.Patches[0].Key != k) {
-				o.Patches = append(o.Patches, keyPatch{Key: k, St: "done"})
+				o.Patches = append(o.Patches, keyPatch{Key: k, St: s.Cap.leave()})
 			}
 		}
 		if len(o.Patches) > 0 {
@@ -161,7 +207,11 @@ func gen(c *rig.Check, idx int) sched {
 	}
 	if r.IntN(100) < 40 {
 		s.Tag = "forced"
-		s.Ops[r.IntN(2)].Force = true
+		if f := r.IntN(2); s.Ops[f].Kind == "patch" {
+			s.Ops[f].Force = true
+		} else {
+			s.Ops[1-f].Force = true
+		}
 	}
 	r.Shuffle(len(s.Ops), func(i, j int) { s.Ops[i], s.Ops[j] = s.Ops[j], s.Ops[i] })
 	return s
@@ -197,7 +247,35 @@ func fixedCases() []sched {
 		{Kind: "pex", HowMany: 0, Scoped: true},
 		{Kind: "shm", HowMany: 1},
 	}
-	return append(out, s)
+	out = append(out, s)
+	// creates: five new records from a seed that already matches, one batch and two batches
+	for _, two := range []bool{false, true} {
+		for _, kind := range []string{"st", "relempty"} {
+			c := sched{Cap: capSpec{Kind: kind, Max: 2}, Exact: true, Sampler: true, Tag: "fixed-create-matching-seed"}
+			for i := 0; i < 4; i++ {
+				c.Recs = append(c.Recs, recSpec{Key: fmt.Sprintf("p%02d", i), St: "pending", G: "a"})
+			}
+			c.Recs = append(c.Recs, recSpec{Key: "q00", St: "queued", G: "a"})
+			var seed *seedSpec
+			if kind == "st" {
+				seed = &seedSpec{St: "claimed", G: "a", Rel: "x"}
+			} // relempty: the default empty map already matches
+			mk := func(from, to int) op {
+				o := op{Kind: "patch", Create: true, Seed: seed}
+				for i := from; i < to; i++ {
+					o.Patches = append(o.Patches, keyPatch{Key: fmt.Sprintf("n%02d", i), St: c.Cap.enter()})
+				}
+				return o
+			}
+			if two {
+				c.Ops = []op{mk(0, 3), mk(3, 5)}
+			} else {
+				c.Ops = []op{mk(0, 5)}
+			}
+			out = append(out, c)
+		}
+	}
+	return out
 }
 
 // ---- offline oracle ------------------------------------------------------------------------
@@ -205,7 +283,7 @@ func fixedCases() []sched {
 func countMatching(cp capSpec, m map[string]body) int {
 	n := 0
 	for _, b := range m {
-		if b.Bad == "" && cp.matches(b.St, b.G) {
+		if cp.matchesBody(b) {
 			n++
 		}
 	}
@@ -222,6 +300,23 @@ func checkLog(s *sched, lg *runLog) (out []finding, stats map[string]int) {
 		}
 	}
 	cp, max := s.Cap, int(s.Cap.Max)
+	// the record a patch starts from: the stored one, or - for a key that does not exist in a
+	// CreateIfNotExist batch - the seed; "existed" tells the two apart (a created record did not
+	// match before, whatever its seed looks like: it was not there)
+	startOf := func(o *op, key string) (b body, existed bool) {
+		if b, ok := lg.Pre[key]; ok {
+			return b, true
+		}
+		return o.Seed.body(), false
+	}
+	preMatch := func(key string) bool {
+		b, ok := lg.Pre[key]
+		return ok && cp.matchesBody(b)
+	}
+	postMatch := func(o *op, p keyPatch) bool {
+		b, _ := startOf(o, p.Key)
+		return cp.matchesBody(cp.with(b, p.St))
+	}
 	pre, post := countMatching(cp, lg.Pre), countMatching(cp, lg.Post)
 	stats["pre_matching"], stats["post_matching"] = pre, post
 	if pre > max {
@@ -243,23 +338,27 @@ func checkLog(s *sched, lg *runLog) (out []finding, stats map[string]int) {
 			switch o.Kind {
 			case "patch":
 				p := o.Patches[j]
-				if oc.Status == "PATCHED" && cp.matches(p.St, lg.Pre[p.Key].G) && !(s.Exact && cp.matches(lg.Pre[p.Key].St, lg.Pre[p.Key].G)) {
+				if (oc.Status == "PATCHED" || oc.Status == "CREATED") && postMatch(o, p) && !(s.Exact && preMatch(p.Key)) {
 					n++
 				}
 			case "pex":
-				if oc.Status == "PATCHED" && oc.B != nil && cp.matches(oc.B.St, oc.B.G) {
+				if oc.Status == "PATCHED" && oc.B != nil && cp.matchesBody(*oc.B) {
 					n++
 				}
 			}
 		}
 		if n > 0 {
-			enteredKinds[o.Kind]++
+			if o.Create {
+				enteredKinds["create"]++ // a CreateIfNotExist batch, named apart in the signature
+			} else {
+				enteredKinds[o.Kind]++
+			}
 		}
 		accepted += n
 		stats["accepted_into_filter"] += n
 	}
 	var ks []string
-	for _, k := range []string{"patch", "pex"} {
+	for _, k := range []string{"create", "patch", "pex"} {
 		switch {
 		case enteredKinds[k] == 1:
 			ks = append(ks, k)
@@ -300,14 +399,14 @@ func checkLog(s *sched, lg *runLog) (out []finding, stats map[string]int) {
 			}
 			stats["patch_CAP_EXCEEDED"]++
 			p := o.Patches[j]
-			g := lg.Pre[p.Key].G
+			start, _ := startOf(o, p.Key)
 			switch {
-			case !cp.matches(p.St, g):
-				fail("cap-exceeded:patch-cannot-enter-the-filter", "request %d: SET st=%q on key %s (g=%s) was rejected CAP_EXCEEDED although the patched record does not match Cap{%s}", i, p.St, p.Key, g, cp.Kind)
-			case s.Exact && cp.matches(lg.Pre[p.Key].St, g):
-				fail("cap-exceeded:record-already-matching", "request %d: SET st=%q on key %s was rejected CAP_EXCEEDED although the record matched Cap{%s} before and after (no other request writes that key)", i, p.St, p.Key, cp.Kind)
+			case !postMatch(o, p):
+				fail("cap-exceeded:patch-cannot-enter-the-filter", "request %d: SET %s=%q on key %s (g=%s) was rejected CAP_EXCEEDED although the patched record does not match Cap{%s}", i, cp.field(), p.St, p.Key, start.G, cp.Kind)
+			case s.Exact && preMatch(p.Key):
+				fail("cap-exceeded:record-already-matching", "request %d: SET %s=%q on key %s was rejected CAP_EXCEEDED although the record matched Cap{%s} before and after (no other request writes that key)", i, cp.field(), p.St, p.Key, cp.Kind)
 			case !unknown && pre+accepted < max:
-				fail("cap-exceeded:budget-remained-in-every-order", "request %d: SET st=%q on key %s was rejected CAP_EXCEEDED; %d records matched before the schedule and all requests together report %d accepted transitions into the filter, so fewer than Max=%d matched at every instant", i, p.St, p.Key, pre, accepted, max)
+				fail("cap-exceeded:budget-remained-in-every-order", "request %d: SET %s=%q on key %s was rejected CAP_EXCEEDED; %d records matched before the schedule and all requests together report %d accepted transitions into the filter, so fewer than Max=%d matched at every instant", i, cp.field(), p.St, p.Key, pre, accepted, max)
 			}
 		}
 		if any := strings.Contains(fmt.Sprint(ev.Out), "CAP_EXCEEDED"); any != ev.CapReached {
@@ -328,16 +427,23 @@ func checkLog(s *sched, lg *runLog) (out []finding, stats map[string]int) {
 			for j, oc := range ev.Out {
 				switch o.Kind {
 				case "patch", "release":
-					if oc.Status == "PATCHED" {
-						b := want[oc.Key]
-						b.St, b.Pv = o.Patches[j].St, token(i, j)
+					_, existed := startOf(o, oc.Key)
+					switch {
+					case oc.Status == "PATCHED" && existed, oc.Status == "CREATED" && !existed:
+						b, _ := startOf(o, oc.Key)
+						b = cp.with(b, o.Patches[j].St)
+						b.Pv = token(i, j)
 						want[oc.Key] = b
+					case !existed:
+						// a create that was not acknowledged as CREATED must leave no record behind
+						if got, there := lg.Post[oc.Key]; there {
+							fail("state-mismatch:patch:"+oc.Status+":record-created-anyway", "key %s: create request %d answered %s, but the record exists afterwards (%s=%q)", oc.Key, i, oc.Status, cp.field(), cp.val(got))
+						}
 					}
 					why[oc.Key] = fmt.Sprintf("%s request %d answered %s", o.Kind, i, oc.Status)
 				case "pex":
 					if oc.Status == "PATCHED" {
-						b := want[oc.Key]
-						b.St = "claimed"
+						b := cp.with(want[oc.Key], cp.enter())
 						b.Cs = append(append([]int(nil), b.Cs...), i)
 						want[oc.Key] = b
 					}
@@ -356,16 +462,16 @@ func checkLog(s *sched, lg *runLog) (out []finding, stats map[string]int) {
 			case gone[k] && ok:
 				fail("state-mismatch:shm:shifted-record-still-there", "key %s: %s, but it is still in the swamp", k, why[k])
 			case gone[k]:
-				if cp.matches(lg.Pre[k].St, lg.Pre[k].G) {
+				if preMatch(k) {
 					transitions--
 				}
 			case !ok:
 				fail("state-mismatch:"+kindOr(kind)+":record-gone", "key %s (%s) is gone after the schedule", k, why[k])
-			case got.St != w.St || got.Pv != w.Pv || fmt.Sprint(got.Cs) != fmt.Sprint(w.Cs):
+			case got.St != w.St || got.Rel != w.Rel || got.G != w.G || got.Pv != w.Pv || fmt.Sprint(got.Cs) != fmt.Sprint(w.Cs):
 				st := strings.TrimSpace(why[k][strings.LastIndex(why[k], " ")+1:])
-				fail("state-mismatch:"+kindOr(kind)+":"+st, "key %s: %s, so the record should be st=%s pv=%d stamps=%v, but it is st=%s pv=%d stamps=%v", k, why[k], w.St, w.Pv, w.Cs, got.St, got.Pv, got.Cs)
+				fail("state-mismatch:"+kindOr(kind)+":"+st, "key %s: %s, so the record should be st=%s rel=%q g=%s pv=%d stamps=%v, but it is st=%s rel=%q g=%s pv=%d stamps=%v", k, why[k], w.St, w.Rel, w.G, w.Pv, w.Cs, got.St, got.Rel, got.G, got.Pv, got.Cs)
 			default:
-				a, b := cp.matches(lg.Pre[k].St, lg.Pre[k].G), cp.matches(got.St, got.G)
+				a, b := preMatch(k), cp.matchesBody(got)
 				if !a && b {
 					transitions++
 				}
@@ -398,7 +504,11 @@ func nontrivial(s *sched, lg *runLog) bool {
 		switch o.Kind {
 		case "patch":
 			for _, p := range o.Patches {
-				if s.Cap.matches(p.St, lg.Pre[p.Key].G) && !s.Cap.matches(lg.Pre[p.Key].St, lg.Pre[p.Key].G) {
+				start, ok := lg.Pre[p.Key]
+				if !ok {
+					start = o.Seed.body()
+				}
+				if s.Cap.matchesBody(s.Cap.with(start, p.St)) && !(ok && s.Cap.matchesBody(lg.Pre[p.Key])) {
 					attempts++
 				}
 			}
